@@ -213,6 +213,10 @@ def _kernels():
     reg('convolve_u8', ['f'], lambda I: mh.convolve(g(I, 'f'), np.ones((3, 3), np.uint8), mode='reflect'))
     reg('convolve1d', ['fl', 'w1'], lambda I: mh.convolve1d(g(I, 'fl'), g(I, 'w1'), 1))
     reg('gaussian_filter', ['fl'], lambda I: mh.gaussian_filter(g(I, 'fl'), 2.))
+    # the derivative orders of the same sigma (their weights are derived in place from the smoothing window)
+    reg('gaussian_filter_d1', ['fl'], lambda I: mh.gaussian_filter(g(I, 'fl'), 2., order=1))
+    reg('gaussian_filter_d01', ['fl'], lambda I: mh.gaussian_filter(g(I, 'fl'), 2., order=(0, 1)))
+    reg('gaussian_filter1d_d2', ['fl'], lambda I: mh.gaussian_filter1d(g(I, 'fl'), 2., axis=0, order=2))
     reg('median_filter', ['f'], lambda I: mh.median_filter(g(I, 'f')))
     reg('rank_filter', ['f'], lambda I: mh.rank_filter(g(I, 'f'), np.ones((3, 3), bool), 2))
     reg('mean_filter', ['fl'], lambda I: mh.mean_filter(g(I, 'fl'), np.ones((3, 3))))
@@ -280,7 +284,8 @@ REGULAR = ['erode', 'erode_u8', 'erode_shared_bc', 'locmax_shared_bc', 'regmin_s
            'majority_filter', 'locmax', 'regmax', 'regmin', 'close_holes', 'distance', 'thin', 'bwperim', 'borders',
            'border', 'label', 'labeled_sum', 'labeled_max', 'labeled_size', 'bbox', 'labeled_bbox', 'relabel',
            'remove_bordering', 'remove_regions', 'is_same_labeling', 'perimeter', 'convolve', 'convolve_u8',
-           'convolve1d', 'gaussian_filter', 'median_filter', 'rank_filter', 'mean_filter', 'template_match', 'find',
+           'convolve1d', 'gaussian_filter', 'gaussian_filter_d1', 'gaussian_filter_d01', 'gaussian_filter1d_d2',
+           'median_filter', 'rank_filter', 'mean_filter', 'template_match', 'find',
            'daubechies', 'idaubechies', 'haar', 'ihaar', 'haralick', 'cooccurence', 'lbp', 'zernike_moments', 'surf',
            'surf_integral', 'surf_interest_points', 'surf_interest_points_integral', 'surf_descriptors', 'shift', 'zoom', 'spline_filter',
            'center_of_mass', 'center_of_mass_labels', 'convexhull', 'fill_convexhull', 'fill_polygon', 'fullhistogram',
@@ -296,7 +301,8 @@ for _k in REGULAR + RAISING + NATIVE_PROBES:
                   'label' if _k in ('label', 'borders', 'border', 'labeled_sum', 'labeled_max', 'labeled_size', 'bbox',
                                     'labeled_bbox', 'relabel', 'remove_bordering', 'remove_regions', 'is_same_labeling',
                                     'perimeter', 'slic') else
-                  'filters' if _k in ('convolve', 'convolve_u8', 'convolve1d', 'gaussian_filter', 'median_filter',
+                  'filters' if _k in ('convolve', 'convolve_u8', 'convolve1d', 'gaussian_filter', 'gaussian_filter_d1',
+                                      'gaussian_filter_d01', 'gaussian_filter1d_d2', 'median_filter',
                                       'rank_filter', 'mean_filter', 'template_match', 'find', 'daubechies',
                                       'idaubechies', 'haar', 'ihaar') else
                   'texture' if _k in ('haralick', 'cooccurence', 'lbp', 'zernike_moments') else
